@@ -4,8 +4,14 @@ From Snow Require Import Model.Broker Proofs.BrokerProofs Proofs.BrokerSteps.
 Import ListNotations.
 Open Scope N_scope.
 
-Lemma reachable_bridges v br s : reachable v br s -> bridges s = br.
-Proof. intros [ls H]. rewrite (run_bridges v ls _ _ H). reflexivity. Qed.
+(* the ghost history of installed lists means what it says: it grows by exactly the installed list *)
+Lemma step_hist v s l s' : step v s l = Some s' ->
+  bridges s' = (match l with L_Install br => br | _ => bridges s end) /\
+  br_hist s' = (match l with L_Install br => br :: br_hist s | _ => br_hist s end).
+Proof.
+  intros H. destruct l; try (match type of H with step _ _ ?L = _ => exact (step_bridges v s L s' eq_refl H) end).
+  cbn [step] in H. injection H as <-. split; reflexivity.
+Qed.
 
 Lemma reachable_step v br s l s' : reachable v br s -> step v s l = Some s' -> reachable v br s'.
 Proof.
@@ -30,7 +36,7 @@ Proof.
   destruct (inv_entries v s I p e Hp) as [_ [Hm [_ [[_ [_ Hans]] _]]]].
   split.
   - eapply (inv_posted v s I); [exact Hp|]. eapply Hans; eassumption.
-  - intros m Hw. destruct (Hm m (or_intror Hw)) as [c0 [Hc0 [Ho _]]]. congruence.
+  - intros m Hw. destruct Hm as [_ [Hm2 _]]. destruct (Hm2 m Hw) as [c0 [Hc0 [Ho _]]]. congruence.
 Qed.
 
 Theorem offer_once v br s p q e1 e2 c1 c2 :
@@ -38,23 +44,66 @@ Theorem offer_once v br s p q e1 e2 c1 c2 :
   e_cl e1 = Some c1 -> e_cl e2 = Some c2 -> c_id c1 = c_id c2 -> p = q.
 Proof. intros R. apply (inv_cids v s (reachable_inv v br s R)). Qed.
 
+(* the relay URL of a match: configured for the fingerprint of the client whose offer this is, in a list that was
+   installed; and it is the URL of the list the client was checked against ([c_url]) unless a list was installed
+   after the client's request *)
 Theorem match_response v br s p e m :
   reachable v br s -> nth_error (entries s) p = Some e -> e_w e = W_Done (PMatch m) ->
-  exists c, e_cl e = Some c /\ m_offer m = c_offer c /\ m_nat m = c_nat c /\ lookup (c_fp c) br = Some (m_url m).
+  exists c, e_cl e = Some c /\ m_offer m = c_offer c /\ m_nat m = c_nat c /\
+    (exists b, In b (br_hist s) /\ lookup (c_fp c) b = Some (m_url m)) /\
+    (exists b, In b (br_hist s) /\ lookup (c_fp c) b = Some (c_url c)) /\
+    (m_url m = c_url c \/ (c_epoch c < length (br_hist s))%nat).
 Proof.
   intros R Hp Hw. pose proof (reachable_inv v br s R) as I.
-  destruct (inv_entries v s I p e Hp) as [_ [Hm _]].
-  rewrite <- (reachable_bridges v br s R). apply Hm. right. exact Hw.
+  destruct (inv_entries v s I p e Hp) as [_ [[_ [Hm _]] [Hcl _]]].
+  destruct (Hm m Hw) as [c [Hc [Ho [Hn [Hb Hu]]]]]. exists c.
+  destruct (Hcl c Hc) as [_ [_ [_ [Hb' _]]]]. repeat split; assumption.
 Qed.
 
-Theorem unknown_bridge_never_matched v s n fp o ch s' :
-  step v s (L_Client n fp o ch) = Some s' -> lookup fp (bridges s) = None ->
+(* when the list is never re-installed (the broker binary installs it once, before serving) this is the list *)
+Corollary match_response_static v br s p e m :
+  reachable v br s -> br_hist s = [br] -> nth_error (entries s) p = Some e -> e_w e = W_Done (PMatch m) ->
+  exists c, e_cl e = Some c /\ m_offer m = c_offer c /\ m_nat m = c_nat c /\ lookup (c_fp c) br = Some (m_url m).
+Proof.
+  intros R Hh Hp Hw. destruct (match_response v br s p e m R Hp Hw) as [c [Hc [Ho [Hn [[b [Hb Hl]] _]]]]].
+  exists c. repeat split; try assumption. rewrite Hh in Hb. destruct Hb as [<-|[]]. exact Hl.
+Qed.
+
+(* the proxy handler fails (HTTP 500) only if a list was installed after the client's request *)
+Theorem proxy_error_only_after_reinstall v br s p e :
+  reachable v br s -> nth_error (entries s) p = Some e -> e_w e = W_Done PError ->
+  exists c, e_cl e = Some c /\ (c_epoch c < length (br_hist s))%nat.
+Proof.
+  intros R Hp Hw. destruct (inv_entries v s (reachable_inv v br s R) p e Hp) as [_ [[_ [_ He]] _]]. apply He. exact Hw.
+Qed.
+
+Theorem unknown_bridge_never_matched v s n ofp o ch s' :
+  step v s (L_Client n ofp o ch) = Some s' -> lookup (fp_of ofp) (bridges s) = None ->
   ch = None /\ entries s' = entries s /\ idmap s' = idmap s /\
-  done_clients s' = (next_cid s, n, fp, o, CBadFingerprint) :: done_clients s.
+  done_clients s' = (next_cid s, n, fp_of ofp, o, CBadFingerprint) :: done_clients s.
 Proof.
   intros H Hfp. cbn [step] in H. rewrite Hfp in H. destruct ch; [discriminate|].
   injection H as <-. repeat split.
 Qed.
+
+(* an accepted client is recorded with the fingerprint it named (the default one if it named none), the URL that
+   the list current at its request configures for it, and the number of lists installed so far *)
+Theorem client_checked v s n ofp o p s' :
+  step v s (L_Client n ofp o (Some p)) = Some s' ->
+  exists e c, nth_error (entries s') p = Some e /\ e_cl e = Some c /\ c_fp c = fp_of ofp /\ c_offer c = o /\
+    c_nat c = n /\ lookup (fp_of ofp) (bridges s) = Some (c_url c) /\ c_epoch c = length (br_hist s) /\
+    bridges s' = bridges s.
+Proof.
+  intros H. cbn [step] in H. destruct (lookup (fp_of ofp) (bridges s)) as [u|] eqn:Hl; [|discriminate].
+  destruct (nth_error (entries s) p) as [e|] eqn:Hp; [|discriminate].
+  destruct (eligible n e && is_min n (entries s) e); [|discriminate]. injection H as <-. cbn [entries bridges].
+  eexists. eexists. split; [apply nth_upd_eq; exact Hp|]. cbn. repeat split.
+Qed.
+
+(* naming no bridge is naming the default bridge *)
+Theorem default_bridge v s n o ch :
+  step v s (L_Client n None o ch) = step v s (L_Client n (Some default_fp) o ch).
+Proof. reflexivity. Qed.
 
 (* ------------------------------------------------------------------ *)
 (* C03                                                                   *)
@@ -86,12 +135,12 @@ Proof.
     apply existsb_exists in E. destruct E as [e [Hin He]]. rewrite (H e Hin) in He. discriminate.
 Qed.
 
-Theorem refusal_iff v s n fp o ch s' :
-  step v s (L_Client n fp o ch) = Some s' -> lookup fp (bridges s) <> None ->
+Theorem refusal_iff v s n ofp o ch s' :
+  step v s (L_Client n ofp o ch) = Some s' -> lookup (fp_of ofp) (bridges s) <> None ->
   (ch = None <-> forall e, In e (entries s) -> eligible n e = false) /\
-  (ch = None -> done_clients s' = (next_cid s, n, fp, o, CNoProxies) :: done_clients s /\ entries s' = entries s).
+  (ch = None -> done_clients s' = (next_cid s, n, fp_of ofp, o, CNoProxies) :: done_clients s /\ entries s' = entries s).
 Proof.
-  intros H Hfp. cbn [step] in H. destruct (lookup fp (bridges s)) as [u|]; [|congruence].
+  intros H Hfp. cbn [step] in H. destruct (lookup (fp_of ofp) (bridges s)) as [u|]; [|congruence].
   destruct ch as [p|].
   - destruct (nth_error (entries s) p) as [e|] eqn:Hp; [|discriminate].
     destruct (eligible n e && is_min n (entries s) e) eqn:He; [|discriminate].
@@ -102,24 +151,25 @@ Proof.
     split; [intros _; apply pool_empty_spec; exact Hpe | reflexivity].
 Qed.
 
-Theorem least_loaded v s n fp o p s' :
-  step v s (L_Client n fp o (Some p)) = Some s' ->
+Theorem least_loaded v s n ofp o p s' :
+  step v s (L_Client n ofp o (Some p)) = Some s' ->
   exists e, nth_error (entries s) p = Some e /\ eligible n e = true /\
     (forall e', In e' (entries s) -> eligible n e' = true -> e_clients e <= e_clients e') /\
     exists c, nth_error (entries s') p = Some (set_cl (Some c) (set_heap_live false (e_live e) e)) /\
-              c_nat c = n /\ c_fp c = fp /\ c_offer c = o /\ c_pc c = C_Send.
+              c_nat c = n /\ c_fp c = fp_of ofp /\ c_offer c = o /\ c_pc c = C_Send.
 Proof.
-  intros H. cbn [step] in H. destruct (lookup fp (bridges s)) as [u|]; [|discriminate].
+  intros H. cbn [step] in H. destruct (lookup (fp_of ofp) (bridges s)) as [u|]; [|discriminate].
   destruct (nth_error (entries s) p) as [e|] eqn:Hp; [|discriminate].
   destruct (eligible n e && is_min n (entries s) e) eqn:He; [|discriminate].
   apply andb_prop in He. destruct He as [He Hmin]. injection H as <-.
   exists e. split; [reflexivity|]. split; [exact He|]. split.
   - intros e' Hin He'. unfold is_min in Hmin. rewrite forallb_forall in Hmin.
     specialize (Hmin e' Hin). rewrite He' in Hmin. cbn in Hmin. apply N.leb_le. exact Hmin.
-  - exists {| c_id := next_cid s; c_nat := n; c_fp := fp; c_offer := o; c_pc := C_Send; c_fired := false |}.
-    split; [|repeat split]. cbn [entries].
-    apply (nth_upd_eq (fun e0 => set_cl (Some {| c_id := next_cid s; c_nat := n; c_fp := fp; c_offer := o; c_pc := C_Send; c_fired := false |})
+  - eexists. split; [|repeat split]. cbn [entries].
+    apply (nth_upd_eq (fun e0 => set_cl (Some {| c_id := next_cid s; c_nat := n; c_fp := fp_of ofp; c_offer := o; c_pc := C_Send;
+                                                 c_fired := false; c_url := u; c_epoch := length (br_hist s) |})
                                   (set_heap_live false (e_live e0) e0))). exact Hp.
+    all: reflexivity.
 Qed.
 
 (* ------------------------------------------------------------------ *)
@@ -132,7 +182,7 @@ Proof.
   apply orb_false_iff in Hp. destruct Hp as [Hp _]. apply orb_false_iff in Hp. destruct Hp as [Hw Hc].
   destruct (e_cl e) as [c|].
   - destruct (c_pc c); try discriminate. bool_crush. split; assumption.
-  - destruct (e_w e) as [| | | |m|[|m]]; try discriminate. bool_crush. split; assumption.
+  - destruct (e_w e) as [| | | |m|[|m|]]; try discriminate. bool_crush. split; assumption.
 Qed.
 
 Lemma count_live_zero es : (forall e, In e es -> e_live e = false) -> count_live es = 0%Z.
@@ -164,14 +214,13 @@ Proof.
   - intros n e Hin. unfold eligible. destruct (Hall e Hin) as [Hh _]. rewrite Hh. reflexivity.
 Qed.
 
-Corollary fresh_client_refused v br s n fp o ch s' :
-  reachable v br s -> quiescent s = true -> lookup fp br <> None ->
-  step v s (L_Client n fp o ch) = Some s' ->
-  ch = None /\ done_clients s' = (next_cid s, n, fp, o, CNoProxies) :: done_clients s.
+Corollary fresh_client_refused v br s n ofp o ch s' :
+  reachable v br s -> quiescent s = true -> lookup (fp_of ofp) (bridges s) <> None ->
+  step v s (L_Client n ofp o ch) = Some s' ->
+  ch = None /\ done_clients s' = (next_cid s, n, fp_of ofp, o, CNoProxies) :: done_clients s.
 Proof.
   intros R Hq Hfp Hs. destruct (quiescent_clean v br s R Hq) as [_ [_ [_ Hel]]].
-  rewrite <- (reachable_bridges v br s R) in Hfp.
-  destruct (refusal_iff v s n fp o ch s' Hs Hfp) as [[_ Hiff] Hdone].
+  destruct (refusal_iff v s n ofp o ch s' Hs Hfp) as [[_ Hiff] Hdone].
   assert (ch = None) by (apply Hiff; intros e Hin; apply Hel; exact Hin).
   split; [assumption|]. apply Hdone. assumption.
 Qed.
@@ -180,7 +229,7 @@ Qed.
 (* C04: progress of the repaired protocol                                *)
 
 Definition internal (l : label) : bool :=
-  match l with L_Poll _ _ _ _ | L_Client _ _ _ _ | L_Answer _ _ => false | _ => true end.
+  match l with L_Poll _ _ _ _ | L_Client _ _ _ _ | L_Answer _ _ | L_Install _ => false | _ => true end.
 
 Definition target (l : label) : option nat :=
   match l with
@@ -205,9 +254,7 @@ Proof.
   - exists (L_WTimeoutCS p). repeat split. cbn [step]. rewrite Hp, Ew. destruct (e_inheap e); discriminate.
   - (* W_Late *) destruct (e_cl e) as [c|] eqn:Hc; [|discriminate].
     destruct (c_pc c) eqn:Hpc; cbn in Hs; bool_crush; try discriminate.
-    destruct (Hcl c Hc) as [_ [Hfp _]].
-    exists (L_RvOffer p). repeat split. cbn [step]. rewrite Hp, Hc, Hpc, Ew.
-    destruct (lookup (c_fp c) (bridges s)); [discriminate | congruence].
+    exists (L_RvOffer p). repeat split. cbn [step]. rewrite Hp, Hc, Hpc, Ew. discriminate.
   - congruence.
   - exists (L_RvForward p). repeat split. cbn [step]. rewrite Hp, Ew. discriminate.
   - (* handler returned: client or senders pending *)
@@ -264,7 +311,6 @@ Proof.
   - destruct (e_cl e) as [c|] eqn:Hc; [|discriminate].
     destruct (c_pc c) eqn:Hpc; try discriminate.
     destruct (match e_w e with W_Select | W_Late => true | _ => false end) eqn:Hw; [|discriminate].
-    destruct (lookup (c_fp c) (bridges s)); [|discriminate].
     injection H as <-. cbn [entries with_entries]. apply (total_upd _ _ _ e Hp).
     unfold em, cm. cbn. rewrite Hc. unfold cm. rewrite Hpc.
     destruct (e_w e); try discriminate; cbn; destruct (c_fired c); destruct (e_wfired e); cbn; lia.
@@ -354,7 +400,7 @@ Proof.
     destruct (e_w e0) eqn:Ew0; try discriminate.
     destruct (e_inheap e0); injection H as <-; cbn [entries with_entries]; other_entry Hp;
       rewrite Hp in Hp0; injection Hp0 as <-; congruence.
-  - destruct (lookup fp (bridges s)).
+  - destruct (lookup (fp_of ofp) (bridges s)).
     + destruct choice as [q|].
       * destruct (nth_error (entries s) q) as [e0|] eqn:Hq; [|discriminate].
         destruct (eligible n e0 && is_min n (entries s) e0); [|discriminate]. injection H as <-.
@@ -365,7 +411,7 @@ Proof.
   - destruct (nth_error (entries s) p0) as [e0|] eqn:Hp0; [|discriminate].
     destruct (e_cl e0) as [c0|]; [|discriminate]. destruct (c_pc c0); try discriminate.
     destruct (match e_w e0 with W_Select | W_Late => true | _ => false end) eqn:Hw; [|discriminate].
-    destruct (lookup (c_fp c0) (bridges s)); [|discriminate]. injection H as <-.
+    injection H as <-.
     cbn [entries with_entries]. other_entry Hp. rewrite Hp in Hp0. injection Hp0 as <-. rewrite Ew in Hw. discriminate.
   - destruct (nth_error (entries s) p0) as [e0|] eqn:Hp0; [|discriminate].
     destruct (e_w e0) eqn:Ew0; try discriminate. injection H as <-.
@@ -390,6 +436,7 @@ Proof.
     injection H as <-. cbn [entries]. other_entry Hp. rewrite Hp in Hp0. injection Hp0 as <-. congruence.
   - discriminate.
   - discriminate.
+  - injection H as <-. exists e. split; assumption.
 Qed.
 
 Lemma stuck_sender_preserved s l s' p e :
@@ -413,7 +460,7 @@ Proof.
     destruct (e_inheap e0) eqn:Eh0; injection H as <-; cbn [entries with_entries]; other_entry Hp;
       rewrite Hp in Hp0; injection Hp0 as <-; [congruence|].
     eexists. split; [apply nth_upd_eq; exact Hp|]. exact Hst.
-  - destruct (lookup fp (bridges s)).
+  - destruct (lookup (fp_of ofp) (bridges s)).
     + destruct choice as [q|].
       * destruct (nth_error (entries s) q) as [e0|] eqn:Hq; [|discriminate].
         destruct (eligible n e0 && is_min n (entries s) e0) eqn:Hel; [|discriminate]. injection H as <-.
@@ -424,7 +471,7 @@ Proof.
   - destruct (nth_error (entries s) p0) as [e0|] eqn:Hp0; [|discriminate].
     destruct (e_cl e0) as [c0|] eqn:Hc0; [|discriminate]. destruct (c_pc c0); try discriminate.
     destruct (match e_w e0 with W_Select | W_Late => true | _ => false end) eqn:Hw; [|discriminate].
-    destruct (lookup (c_fp c0) (bridges s)); [|discriminate]. injection H as <-.
+    injection H as <-.
     cbn [entries with_entries]. other_entry Hp. rewrite Hp in Hp0. injection Hp0 as <-. congruence.
   - destruct (nth_error (entries s) p0) as [e0|] eqn:Hp0; [|discriminate].
     destruct (e_w e0) eqn:Ew0; try discriminate. injection H as <-.
@@ -451,6 +498,7 @@ Proof.
     injection H as <-. cbn [entries]. other_entry Hp. rewrite Hp in Hp0. injection Hp0 as <-. congruence.
   - discriminate.
   - discriminate.
+  - injection H as <-. exists e. split; assumption.
 Qed.
 
 Lemma forever {P : entry -> Prop} (Pres : forall s l s' p e, step V0 s l = Some s' ->
@@ -465,7 +513,7 @@ Proof.
 Qed.
 
 Definition f1_trace : list label :=
-  [L_Poll 1 NatUnrestricted 1 0; L_FireW 0; L_WTake 0; L_Client NatRestricted 7 100 (Some 0%nat); L_WTimeoutCS 0].
+  [L_Poll 1 NatUnrestricted 1 0; L_FireW 0; L_WTake 0; L_Client NatRestricted (Some 7) 100 (Some 0%nat); L_WTimeoutCS 0].
 Definition f2_trace : list label :=
   [L_Poll 1 NatUnrestricted 1 0; L_Answer 1 55; L_FireW 0; L_WTake 0; L_WTimeoutCS 0].
 
